@@ -200,6 +200,11 @@ func (c *concReader) seek(offset int64, whence int, limit int64) (int64, error) 
 	if limit > c.decompressedSize {
 		limit = c.decompressedSize
 	}
+	if c.posLimit != limit {
+		// The work in progress (if any) was requested for the old limit: it
+		// may stop short of, or run past, the new one.
+		c.seekResolved = false
+	}
 	c.posLimit = limit
 
 	return pos, nil
